@@ -339,6 +339,51 @@ def random_gate(rng, N, handled_only=False):
     return [name, [b, c], [a], None]   # FREDKIN
 
 
+def reuse_circuits(N, a, b):
+    """multi-gate circuits that use the pair (a, b) more than once inside ONE call: both orientations, the same
+    orientation again, different gate kinds / arg_values on the same pair, overlapping pairs, other gates in between.
+    A router that keeps any state across the gates of a circuit (cache, counter, reused temporary) shows up here."""
+    others = [q for q in range(N) if q not in (a, b)]
+    c = others[(a + b) % len(others)] if others else None
+    mid = ["RX", [(a + b) // 2], [], 5]
+    out = [
+        [one_gate("CNOT", a, b), one_gate("CNOT", b, a), one_gate("CNOT", a, b)],
+        [one_gate("CNOT", a, b), mid, one_gate("CSIGN", a, b), one_gate("CNOT", b, a)],
+        [["SWAPalpha", [a, b], [], 3], ["SWAPalpha", [b, a], [], 5], one_gate("ISWAP", a, b), ["SWAPalpha", [a, b], [], 3]],
+        [one_gate("SQRTSWAP", a, b), one_gate("CNOT", b, a), one_gate("SWAP", b, a), one_gate("CNOT", a, b)],
+    ]
+    if c is not None:
+        out.append([one_gate("CNOT", a, b), one_gate("CNOT", a, c), one_gate("CNOT", c, b), one_gate("CNOT", b, a)])
+        out.append([one_gate("CNOT", c, a), one_gate("BERKELEY", b, c), ["X", [c], [], None], one_gate("CNOT", a, c),
+                    one_gate("CSIGN", b, a)])
+    return out
+
+
+def random_reuse_circuit(rng, N):
+    """longer random circuit drawn from a small pool of qubit pairs, so that pairs repeat with every orientation"""
+    pool = []
+    for _ in range(rng.randrange(1, 4)):
+        a, b = rng.sample(range(N), 2)
+        pool.append((a, b))
+    gates = []
+    for _ in range(rng.randrange(4, 15)):
+        if rng.random() < 0.2:
+            gates.append(random_gate(rng, N, False))
+            continue
+        a, b = rng.choice(pool)
+        if rng.random() < 0.5:
+            a, b = b, a
+        kind = rng.choice(["CNOT", "CNOT", "CNOT", "CSIGN", "SWAP", "ISWAP", "SQRTISWAP", "SQRTSWAP", "BERKELEY", "SWAPalpha"])
+        g = one_gate(kind, a, b)
+        if kind == "SWAPalpha":
+            g[3] = rng.choice([1, 3, 4, 6])
+        gates.append(g)
+    return gates
+
+
+FNS = (("tcs", "linear"), ("tcs", "circular"), ("adj", "linear"))
+
+
 def gen_inputs(ctx):
     inputs = []
     seen = set()
@@ -369,8 +414,21 @@ def gen_inputs(ctx):
                     add({"fn": "tcs", "setup": "linear", "N": N, "gates": [g]}, "single")
                     add({"fn": "tcs", "setup": "circular", "N": N, "gates": [g]}, "single")
                     add({"fn": "adj", "setup": "linear", "N": N, "gates": [g]}, "single")
-    # random multi-gate circuits with pass-through gates
+    # systematic cross-gate stream: every ordered pair reused inside one circuit (state kept across gates)
+    for N in range(3, ctx.n(6, 7) + 1):
+        for a in range(N):
+            for b in range(N):
+                if a == b:
+                    continue
+                for gates in reuse_circuits(N, a, b):
+                    for fn, setup in FNS:
+                        add({"fn": fn, "setup": setup, "N": N, "gates": gates}, "reuse")
     rng = ctx.rng
+    for _ in range(ctx.n(300, 2500)):
+        N = rng.choice([3, 4, 5, 5, 6, 6, 7, 8] if not ctx.thorough else [3, 4, 5, 6, 6, 7, 7, 8, 9, 10])
+        fn, setup = rng.choice(FNS)
+        add({"fn": fn, "setup": setup, "N": N, "gates": random_reuse_circuit(rng, N)}, "reuse-random")
+    # random multi-gate circuits with pass-through gates
     for _ in range(ctx.n(500, 4000)):
         N = rng.choice([2, 3, 4, 5, 5, 6, 6, 7, 8, 9, 10, 11, 12] if ctx.thorough else [2, 3, 4, 5, 5, 6, 6, 7, 8, 9, 10])
         fn, setup = rng.choice([("tcs", "linear"), ("tcs", "circular"), ("tcs", "circular"), ("adj", "linear")])
@@ -544,6 +602,17 @@ def search(ctx, broken):
                     for kind in ("CNOT", "SQRTSWAP", "SWAPalpha"):
                         for fn, setup in (("tcs", "linear"), ("tcs", "circular"), ("adj", "linear")):
                             cands.append({"fn": fn, "setup": setup, "N": N, "gates": [one_gate(kind, a, b)]})
+    for N in range(3, 6):
+        for a in range(N):
+            for b in range(N):
+                if a != b:
+                    for gates in reuse_circuits(N, a, b):
+                        for fn, setup in FNS:
+                            cands.append({"fn": fn, "setup": setup, "N": N, "gates": gates})
+    for _ in range(200):
+        N = ctx.rng.randrange(3, 8)
+        fn, setup = ctx.rng.choice(FNS)
+        cands.append({"fn": fn, "setup": setup, "N": N, "gates": random_reuse_circuit(ctx.rng, N)})
     for _ in range(300):
         N = ctx.rng.randrange(2, 9)
         fn, setup = ctx.rng.choice([("tcs", "linear"), ("tcs", "circular"), ("adj", "linear")])
